@@ -11,32 +11,99 @@ B = "planner::binder::Binder"
 PP = "physical::planner::PhysicalPlanner"
 
 
+def _with_derived(g, op):
+    return derives_from(g, [op], lambda k, x: (k == "place" and "|f:with:" in x and x) or None)
+
+
+def _scope_restored(F, g, call, depth=0):
+    """after `call` (which, transitively, inserts WITH names into Binder.ctes) every non-error return of g is preceded by a
+    whole-field store into self.ctes; a restore may be skipped only on the `query.with is None` edge when the insertion is
+    itself conditioned on `query.with`; if g has no restore at all, every caller of g must satisfy the same rule"""
+    from c15 import controlling_switches
+    restores = set()
+    for i, j, dst, rv, line in g.stmts():
+        pf = place_fields(dst)
+        if pf and pf[-1][0] == "ctes" and g.path_exists(call.bb, i):
+            restores.add(i)
+    for x in g.calls():
+        if x.name in ("std::mem::replace", "std::mem::swap") and _ctes_place(g, x.args[0]) and g.path_exists(call.bb, x.bb):
+            restores.add(x.bb)
+    if not restores:
+        ups = [u for u in F.callers_of(g.path) if u.fn.path != g.path and (F.bodies[u.fn.path].get("root") or u.fn.path) != g.path]
+        if depth >= 2 or not ups:
+            return False, dict(restores=0, function=g.path)
+        res = [_scope_restored(F, u.fn, u, depth + 1) for u in ups]
+        bad = [d for ok, d in res if not ok]
+        return (not bad), dict(restores=0, callers_checked=len(ups), first_bad=bad[0] if bad else None)
+    # is the insertion conditioned on query.with?
+    ins_cond = any(_with_derived(g, "c:" + (g.switch_info(sb)[1][0] if g.switch_info(sb)[0] == "enum" else g.switch_info(sb)[1])) for sb, v in controlling_switches(g, call.bb) if g.switch_info(sb)[1])
+    if not ins_cond and depth > 0:
+        # the insertion happens in a callee: look there
+        h = F.fn(call.name) if call.name in F.bodies else None
+        if h is not None:
+            for hc in h.calls():
+                if hc.name.endswith("::bind_ctes"):
+                    ins_cond = any(_with_derived(h, "c:" + (h.switch_info(sb)[1][0] if h.switch_info(sb)[0] == "enum" else h.switch_info(sb)[1])) for sb, v in controlling_switches(h, hc.bb) if h.switch_info(sb)[1])
+    avoid = set(restores)
+    bypass = 0
+    if ins_cond:
+        for r in restores:
+            for sb, val in controlling_switches(g, r):
+                si = g.switch_info(sb)
+                subj = si[1][0] if si[0] == "enum" else si[1]
+                if subj and _with_derived(g, "c:" + subj):
+                    for v, t in list(si[2].items()) + [("otherwise", si[3])]:
+                        if t is not None and not g.dominates(t, r) and t != r:
+                            avoid.add(t)
+                            bypass += 1
+    rets = ok_value_blocks(g) or [b for b in range(g.n) if g.blocks[b]["t"][0] == "ret"]
+    start = call.target if call.target is not None else call.bb
+    leak = [r for r in rets if r in g.reachable(start, avoid=frozenset(avoid))]
+    return (not leak), dict(restores=len(restores), with_conditioned_bypass_edges=bypass, insertion_conditioned_on_with=bool(ins_cond), leaking_returns=len(leak), function=g.path)
+
+
+def _ctes_place(g, op):
+    return derives_from(g, [op], lambda k, y: (k == "place" and any(f_ == "ctes" for f_, a in place_fields(y))) or None)
+
+
 def run(F, R):
     R.rule("C28.R1", "K3 scope pairing", "insert into Binder.ctes in a WITH scope => the entry map is restored before the enclosing bind_query returns")
-    R.rule("C28.R2", "K5", "CTE cache key derives from the name only")
     bc = F.one("bind_ctes", file="src/planner/binder.rs")
     ins = [c for c in bc.calls() if c.name.rsplit("::", 1)[-1] == "insert" and "HashMap" in c.self_ty and derives_from(bc, [c.args[0]], lambda k, x: (k == "place" and any(f_ == "ctes" for f_, a in place_fields(x))) or None)]
     R.floor("C28.R1", "inserts into Binder.ctes", len(ins), 1)
     callers = F.callers_of(bc.path)
     R.floor("C28.R1", "callers of bind_ctes", len(callers), 1)
     for c in callers:
-        g = c.fn
-        # restore = a store into self.ctes (whole-field assignment) reachable after the bind_ctes call on every path to a return
-        restores = [i for i, j, dst, rv, line in g.stmts() if place_fields(dst)[-1:] and place_fields(dst)[-1][0] == "ctes" and "|*|" in dst or (place_fields(dst)[-1:] and place_fields(dst)[-1][0] == "ctes")]
-        restores += [x.bb for x in g.calls() if x.name in ("std::mem::replace", "std::mem::swap", "std::mem::take") and derives_from(g, [x.args[0]], lambda k, y: (k == "place" and any(f_ == "ctes" for f_, a in place_fields(y))) or None) and g.path_exists(c.bb, x.bb)]
-        restores = [r for r in restores if g.path_exists(c.bb, r)]
-        leak = g.can_return_from(c.target if c.target is not None else c.bb, avoid=frozenset(restores)) if True else False
-        # only normal (Ok) returns matter
-        okr = [i for i in ok_value_blocks(g)]
-        leak_ok = any(r in g.reachable(c.bb, avoid=frozenset(restores)) for r in okr)
-        R.check(not leak_ok and bool(restores), "C28.R1", f"{F.bodies[g.path]['name']}:ctes-restored", "a WITH clause's names stay in the binder's CTE map after the query that declared them has been bound: an inner WITH that reuses a name silently rebinds later outer references to it", g.loc(c.bb), dict(restores=len(restores)))
+        ok, detail = _scope_restored(F, c.fn, c)
+        R.check(ok, "C28.R1", f"{F.bodies[c.fn.path]['name']}:ctes-restored", "a WITH clause's names stay in the binder's CTE map after the query that declared them has been bound: an inner WITH that reuses a name silently rebinds later outer references to it", c.fn.loc(c.bb), detail)
     # ---- R2
+    R.rule("C28.R2", "K5 provenance", "the identity under which a shared CTE is materialised is per WITH definition: either the cache key takes more than the name, or cte_name at the reference site comes from the binder's CTE map entry and that entry's identity is derived from a per-definition counter")
     ck = F.fn(PP + "::cte_name_key")
     hashed = [c for c in ck.calls() if c.name.rsplit("::", 1)[-1] == "hash"]
-    only_name = len(hashed) == 1 and ck.raw["nargs"] == 1
+    key_name_only = len(hashed) == 1 and ck.raw["nargs"] == 1
     users = F.callers_of(ck.path)
-    name_only_args = all(".cte_name" in k9.kexpr(u.fn, u.args[0]) or "name" in (u.fn.local_name(place_local(op_place(u.args[0]))) or "") or True for u in users)
-    R.check(not only_name, "C28.R2", "cte-cache-key:name-only", "materialised CTE results are cached under a key computed from the CTE name alone: two WITH scopes that define the same name with different queries share one cache entry", ck.loc(), dict(parameters=ck.raw["nargs"], users=len(users)))
+    SA = "adt:planner::logical_plan::SubqueryAliasNode"
+    refs = []
+    for g in F.fns_building(SA):
+        if not g.file.startswith("src/planner/binder"):
+            continue
+        for i, j, dst, rv, line in g.stmts():
+            if rv[0] == "agg" and rv[1] == SA:
+                m = dict(zip(rv[3], rv[2]))
+                o = origin(g, m["cte_name"])
+                if o[0] == "rv" and o[1][0] == "agg" and o[1][1].endswith("Option::Some"):
+                    from_map = derives_from(g, o[1][2], lambda k, x: (k == "call" and x.name.rsplit("::", 1)[-1] in ("get", "get_mut", "get_key_value") and "HashMap" in x.self_ty and _ctes_place(g, x.args[0]) and x) or None,
+                                            stop=lambda c_: c_.name.rsplit("::", 1)[-1] in ("get", "get_mut", "get_key_value"))
+                    refs.append((g, i, bool(from_map)))
+    R.floor("C28.R2", "CTE reference sites (SubqueryAliasNode with cte_name: Some)", len(refs), 1)
+    # definition side: the identity component of the inserted entry derives from a counter (HashMap::entry / len / fetch_add)
+    COUNTER = ("entry", "or_insert", "or_insert_with", "or_default", "len", "fetch_add", "next")
+    def_counter = False
+    for c in ins:
+        if len(c.args) >= 3 and derives_from(bc, [c.args[2]], lambda k, x: (k == "call" and x.name.rsplit("::", 1)[-1] in COUNTER and x) or None):
+            def_counter = True
+    per_def = bool(refs) and all(fm for g, i, fm in refs) and def_counter
+    R.check((not key_name_only) or per_def, "C28.R2", "cte-cache-key:name-only", "materialised CTE results are cached under a key computed from the CTE name alone, and the name given at the reference site is the table name as written (not a per-definition identity): two WITH scopes that define the same name with different queries share one cache entry", ck.loc(), dict(key_parameters=ck.raw["nargs"], key_users=len(users), reference_sites=len(refs), identity_from_map_entry=[fm for g, i, fm in refs], identity_from_counter=def_counter))
     import c07
     from report import Report
     R2 = Report("C07", F)
